@@ -6,7 +6,7 @@
 # then every listed check's quick tier is run against the patched tree. /repo is restored.
 set -u
 id="$1"; out="$2"; shift 2
-checks=("$@"); [ ${#checks[@]} -eq 0 ] && checks=("$id")
+checks=("$@"); [ ${#checks[@]} -eq 0 ] && checks=("${id%%-*}")   # id may be C03 or C03-r2 (second round)
 dst=/verif/seeded/$id
 mkdir -p "$dst"
 cp "$out/patch.diff" "$dst/patch.diff" || exit 2
@@ -20,7 +20,8 @@ say() { echo "$@" | tee -a "$res"; }
 git apply --check "$dst/patch.diff" || { say "PATCH DOES NOT APPLY"; exit 1; }
 demo_file="$dst/demo/seeded_demo.rs"; [ -f "$demo_file" ] || demo_file=$(ls "$dst"/demo/*.rs 2>/dev/null | head -1)
 crate=$(grep -m1 '^+++ b/crates/' "$dst/patch.diff" | sed 's#^+++ b/crates/\([^/]*\)/.*#\1#')
-demo_crate="${DEMO_CRATE:-$crate}"
+mc=$(python3 -c "import json,sys;print(json.load(open(sys.argv[1])).get('demo_crate',''))" "$dst/agent_meta.json" 2>/dev/null)
+demo_crate="${DEMO_CRATE:-${mc:-$crate}}"
 run_demo() {
   # returns the demo's exit status; the demo is a cargo integration test placed in crates/<crate>/tests/
   [ -n "$demo_file" ] || return 99
